@@ -37,6 +37,10 @@ class XRefNode(ConfigScalar(str)):
 
             chain.append(str(curr))
             curr = ref
+            if isinstance(curr, XRefNode) and not curr.ayns.safe:
+                # a reference on the way is content like the one followed first: "evaluate_node", which looks at
+                # the safety of what it evaluates, only ever sees the two ends of the chain
+                ctx._note_unsafe_dependency(curr, chain[-1])
         assert curr is not self
         return ctx.evaluate_node(curr, prefix=chain[-1])
 
